@@ -102,9 +102,13 @@ def attacks(tier):
     out.append(('count/OfSized/uper/65535', 'OfSized', 'uper', b'\xff\xff', 'bounded'))
     for ty, tag in (('Oct', 0x04), ('Bits', 0x03), ('Str', 0x16), ('U8', 0x0c), ('Int', 0x02), ('Oid', 0x06)):
         for ln in (b'\x84\x7f\xff\xff\xff', b'\x84\xff\xff\xff\xff', b'\x88\x7f\xff\xff\xff\xff\xff\xff\xff', b'\x83\xff\xff\xff', b'\x82\xff\xff'):
-            out.append(('lenprefix/%s/ber/%s' % (ty, ln.hex()), ty, 'ber', bytes([tag]) + ln, 'bounded'))
-            if ty != 'Bits':
-                out.append(('lenprefix/%s/oer/%s' % (ty, ln.hex()), ty, 'oer', ln, 'bounded'))
+            # ... and with 0, 1, 2, 17 content octets really delivered (a decoder may size its buffer from the claim as soon
+            # as the first content octet arrives)
+            for k in (0, 1, 2, 17):
+                suffix = ('+%d' % k) if k else ''
+                out.append(('lenprefix/%s/ber/%s%s' % (ty, ln.hex(), suffix), ty, 'ber', bytes([tag]) + ln + b'\x00' * min(k, 1) + b'\x41' * max(0, k - 1), 'bounded'))
+                if ty != 'Bits':
+                    out.append(('lenprefix/%s/oer/%s%s' % (ty, ln.hex(), suffix), ty, 'oer', ln + b'\x41' * k, 'bounded'))
         for frag in (b'\xc4', b'\xc4' + b'\x00' * 10, b'\xbf\xff', b'\xc1' + b'\x55' * 100):
             out.append(('lenprefix/%s/uper/%s' % (ty, frag[:3].hex()), ty, 'uper', frag, 'bounded'))
     return mod, out
@@ -199,7 +203,7 @@ def run(args):
     cov = dict(evaluations=stats['evaluations'], distinct_nontrivial=len(distinct),
                rule='attack catalogue x size ladder (nesting depth / element count %s) on the plain (non-sanitizer) build with the default 8 MiB stack: recursion through '
                     'four knots (OPTIONAL, SEQUENCE OF, CHOICE, extension addition) in BER definite/indefinite, OER, UPER, XER; nested constructed OCTET/BIT STRING; nested indefinite '
-                    'lengths inside a skipped extension; length prefixes up to 2^63 with nothing behind them for every length-carrying leaf in BER/OER/UPER (incl. fragmented PER '
+                    'lengths inside a skipped extension; length prefixes up to 2^63 with nothing, 1, 2 or 17 content octets behind them for every length-carrying leaf in BER/OER/UPER (incl. fragmented PER '
                     'lengths); zero-width elements with counts up to 2^63 (NULL, single-value INTEGER, empty SEQUENCE; OER quantity fields of 1..8 octets); each knot attack also '
                     'with caller-supplied max_stack_size 1000 and 1000000. Oracle: the process is not killed (no SIGSEGV from stack exhaustion, no abort), no watchdog, peak live heap '
                     'and largest single allocation request <= 1024 x input bytes + 64 KiB, nothing leaked. The claim is for this finite catalogue.' % (
